@@ -23,6 +23,7 @@ fn main() {
     fs::create_dir_all(&out).unwrap();
     let r = match args[1].as_str() {
         "corpus" => corpus::run(&repo, &out),
+        "srcsnap" => corpus::srcsnap(&repo, &out),
         "callgraph" => callgraph::run(&repo, &out),
         "builder" => builder::run(&repo, &out),
         "schema" => schema::run(&repo, &out),
